@@ -735,6 +735,24 @@ def ru_resume_stub(cx):
 ru_resume_stub.modifies = resume_stub.modifies
 
 
+def once_per_path(c, items):
+    """drop lemma items that an earlier hook call on this very path has already contributed"""
+    st = c.new_state
+    seen = set(st.heap.get('__c19_lemmas__', ()))
+    out = []
+    for it in items:
+        z = it.z if isinstance(it, Prove) else it
+        i = z.get_id()
+        if i in seen:
+            continue
+        seen.add(i)
+        out.append(it)
+    st.heap['__c19_lemmas__'] = frozenset(seen)
+    st.heap.setdefault('__c19_keep__', [])
+    st.heap['__c19_keep__'] = st.heap['__c19_keep__'] + [it.z if isinstance(it, Prove) else it for it in out]
+    return out
+
+
 def make_readuntil(kind):
     def sep_of(c):
         return VBytes(b'\n').z if kind == 'newline' else c.arg('separator')
@@ -751,47 +769,92 @@ def make_readuntil(kind):
             R.flat(Rb) == offered(c),
             R.no_occ(b, sep_of(c)))                                    # no separator inside what was scanned
 
-    def lemmas(c):
-        """instances at the head-state list: head part / current chunk / rest"""
-        out = []
+    def head_terms(c):
+        """(list, index, scanned data) at the head of the current inner-loop iteration.  Recorded in the state by the
+        hook call made on the loop-head state so that the hooks of later cut points of the same path see them."""
         h = getattr(c, 'head', None)
+        st = c.new_state
         if h is not None and 'curbuf' in h.env:
-            Rb, cur, b0 = h.env['recv_buf'].z, h.env['curbuf'].z, h.env['buf'].z
-            n = z3.Length(Rb)
-            P, y, rest = z3.Extract(Rb, 0, cur), Rb[cur], z3.Extract(Rb, cur + 1, n - cur - 1)
-            P1 = z3.Extract(Rb, 0, cur + 1)
-            out += [R.ax_empty(), R.ax_alldata_empty(),
-                    Prove(z3.Implies(cur < n, Rb == z3.Concat(P, z3.Unit(y), rest)), 'list == scanned ++ [current] ++ rest'),
-                    Prove(z3.Implies(cur < n, P1 == z3.Concat(P, z3.Unit(y))), 'scanned part grows by the current chunk'),
-                    Prove(z3.Implies(cur == n, P == Rb), 'everything scanned'),
-                    R.ax_append(P, z3.Concat(z3.Unit(y), rest)), R.ax_cons2(y, rest), R.ax_append(P, z3.Unit(y)),
-                    R.ax_single(y), R.ax_alldata_append(P, z3.Unit(y)), R.ax_alldata_single(y),
-                    R.ax_units_split(b0, R.val_of(y)),
-                    R.ax_occ_stable(b0, R.val_of(y), sep_of(c)), R.ax_occ_bounds(b0, sep_of(c)),
-                    R.ax_occ_bounds(z3.Concat(b0, R.val_of(y)), sep_of(c))]
-            st = c.new_state
-            if 'idx' in st.env and isinstance(st.env.get('idx'), VInt):
-                # a match was found: the remainder is re-queued at the head (or dropped when empty)
-                full = z3.Concat(b0, R.val_of(y))
-                idx = st.env['idx'].z
-                rem = z3.Extract(full, idx, z3.Length(full) - idx)
-                res = z3.Extract(full, 0, idx)
-                newR = c.local('recv_buf')
-                out += [Prove(z3.Implies(z3.Length(rem) > 0, newR == z3.Concat(z3.Unit(R.mk_val(rem)), rest)),
-                              'remainder re-queued at the head'),
-                        Prove(z3.Implies(z3.Length(rem) == 0, newR == rest), 'empty remainder removed'),
-                        Prove(full == z3.Concat(res, rem), 'match prefix ++ remainder == scanned data'),
-                        R.ax_cons2(R.mk_val(rem), rest), R.ax_units_split(res, rem),
-                        R.ax_occ_stable(res, rem, sep_of(c)), R.ax_occ_bounds(res, sep_of(c))]
-        return out + auto_lemmas(c, extra=[inv(c)] if c.has_local('curbuf') else [])
+            t = (h.env['recv_buf'].z, h.env['curbuf'].z, h.env['buf'].z)
+            if 'curbuf' in st.env and st.env['recv_buf'].z.eq(t[0]) and st.env['buf'].z.eq(t[2]):
+                st.heap['__ru_head__'] = t
+            return t
+        return st.heap.get('__ru_head__')
+
+    def step_lemmas(c):
+        ht = head_terms(c)
+        if ht is None:
+            return []
+        Rb, cur, b0 = ht
+        sep = sep_of(c)
+        n = z3.Length(Rb)
+        P, y, rest = z3.Extract(Rb, 0, cur), Rb[cur], z3.Extract(Rb, cur + 1, n - cur - 1)
+        P1 = z3.Extract(Rb, 0, cur + 1)
+        full = z3.Concat(b0, R.val_of(y))
+        isdata = z3.And(cur < n, z3.Not(R.is_exc(y)))
+        out = [R.ax_empty(), R.ax_alldata_empty(),
+               Prove(z3.Implies(cur < n, Rb == z3.Concat(P, z3.Unit(y), rest)), 'list == scanned ++ [current] ++ rest'),
+               Prove(z3.Implies(cur < n, P1 == z3.Concat(P, z3.Unit(y))), 'scanned part grows by the current chunk'),
+               Prove(z3.Implies(cur == n, P == Rb), 'everything scanned'),
+               R.ax_append(P, z3.Concat(z3.Unit(y), rest)), R.ax_cons2(y, rest), R.ax_append(P, z3.Unit(y)),
+               R.ax_single(y), R.ax_alldata_append(P, z3.Unit(y)), R.ax_alldata_single(y),
+               R.ax_units_split(b0, R.val_of(y)),
+               R.ax_occ_stable(b0, R.val_of(y), sep), R.ax_occ_bounds(b0, sep), R.ax_occ_bounds(full, sep),
+               # proof script: the unit stream of the list, split at the current chunk
+               Prove(z3.Implies(isdata, R.flat(Rb) == z3.Concat(R.flat(P), R.units(R.val_of(y)), R.flat(rest))),
+                     'flat(list) == flat(scanned) ++ units(current) ++ flat(rest)'),
+               Prove(z3.Implies(isdata, R.dlen(Rb) == R.dlen(P) + z3.Length(R.val_of(y)) + R.dlen(rest)),
+                     'dlen(list) == dlen(scanned) + len(current) + dlen(rest)'),
+               Prove(z3.Implies(cur < n, R.ok(rest)), 'rest has no empty chunk')]
+        st = c.new_state
+        if isinstance(st.env.get('idx'), VInt) and 'match' in st.env:
+            # a match was found: the remainder is re-queued at the head (or dropped when empty)
+            idx = st.env['idx'].z
+            rem = z3.Extract(full, idx, z3.Length(full) - idx)
+            res = z3.Extract(full, 0, idx)
+            newR = c.local('recv_buf')
+            # (_maybe_resume_reading() may already have let the environment append: look at the list before that)
+            last = c.new('ghost_last')
+            mv = c.newv('_recv_buf').val
+            if mv.decl().kind() == z3.Z3_OP_STORE:
+                newR = mv.arg(2)
+            if newR.decl().kind() == z3.Z3_OP_SEQ_CONCAT and newR.num_args() == 2 and newR.arg(1).eq(last):
+                out.append(R.ax_append(newR.arg(0), last))
+                newR = newR.arg(0)
+            out += [Prove(z3.Implies(z3.Length(rem) > 0, newR == z3.Concat(z3.Unit(R.mk_val(rem)), rest)),
+                          'remainder re-queued at the head'),
+                    Prove(z3.Implies(z3.Length(rem) == 0, newR == rest), 'empty remainder removed'),
+                    Prove(full == z3.Concat(res, rem), 'match prefix ++ remainder == scanned data'),
+                    R.ax_cons2(R.mk_val(rem), rest), R.ax_units_split(res, rem),
+                    R.ax_occ_stable(res, rem, sep), R.ax_occ_bounds(res, sep),
+                    Prove(R.units(full) == z3.Concat(R.units(res), R.units(rem)), 'units split at the match end'),
+                    Prove(R.flat(newR) == z3.Concat(R.units(rem), R.flat(rest)), 'flat(new list) == units(remainder) ++ flat(rest)'),
+                    Prove(R.dlen(newR) == z3.Length(rem) + R.dlen(rest), 'dlen(new list) == len(remainder) + dlen(rest)'),
+                    Prove(z3.Concat(R.units(b0), R.units(R.val_of(y))) == R.units(full), 'units of the scanned data')]
+            if c.result_v is not None and hasattr(c.result_v, 'z'):
+                out.append(Prove(c.result_v.z == res, 'result is the prefix through the match end'))
+        return out
+
+    def lemmas(c):
+        h = getattr(c, 'head', None)
+        st = c.new_state
+        if h is not None and len(st.pc) == len(h.pc) and 'curbuf' in st.env and \
+                st.env['recv_buf'].z.eq(h.env['recv_buf'].z) and st.env['curbuf'].z.eq(h.env['curbuf'].z):
+            # the call on the loop-head state itself: only remember the head terms; the (quantified) instances are
+            # supplied where the path ends, so that the feasibility checks along the path stay cheap
+            head_terms(c)
+            return [R.ax_empty(), R.ax_alldata_empty()] + \
+                ([R.ax_occ_bounds(R.EMPTYB, sep_of(c))] if isinstance(st.env['curbuf'], VInt) and
+                 concrete_int(st.env['curbuf']) == 0 else [])
+        return once_per_path(c, step_lemmas(c) + auto_lemmas(c, extra=[inv(c)] if c.has_local('curbuf') else []))
 
     def post_return(c):
         r, B1, sep = c.result, buf(c), sep_of(c)
         k = z3.Length(r) - z3.Length(sep)
-        return z3.Or(
-            z3.And(z3.Concat(R.units(r), R.flat(B1)) == offered(c),       # the next units, nothing lost or skipped
-                   R.occ(r, sep, k), R.no_occ_before(r, sep, k)),          # up to and including the FIRST match
-            soft_case(c, B1, z3.Length(r)))
+        sc = soft_case(c, B1, z3.Length(r))
+        return [z3.Or(z3.Concat(R.units(r), R.flat(B1)) == offered(c), sc),   # the next units, nothing lost/skipped
+                z3.Or(R.occ(r, sep, k), sc),                                  # ... ending in a separator match
+                z3.Or(R.no_occ_before(r, sep, k), sc)]                        # ... which is the FIRST match
 
     def raise_incomplete(c):
         p, expected = c.result_v.args[0].z, c.result_v.args[1]
@@ -816,10 +879,10 @@ def make_readuntil(kind):
     def out_lemmas(c):
         goals = []
         if c.raised is None:
-            goals = [post_return(c)]
+            goals = post_return(c)
         elif c.raised == 'IncompleteReadError':
             goals = [raise_incomplete(c)]
-        return auto_lemmas(c, extra=goals)
+        return once_per_path(c, step_lemmas(c) + auto_lemmas(c, extra=goals))
 
     params = dict(datatype=KT, max_separator_len='int')
     if kind == 'literal':
@@ -843,7 +906,9 @@ def make_readuntil(kind):
                            variant=lambda c: z3.Length(c.local('recv_buf')) - c.local('curbuf'))},
         requires=lambda c: z3.And(wf(c), view_is(c), flow_inv(c, False)),
         lemmas=out_lemmas,
-        ensures=[('returns-through-the-first-separator-match', post_return),
+        ensures=[('delivers-the-next-units-in-order-nothing-lost', lambda c: post_return(c)[0]),
+                 ('result-ends-with-a-separator-match', lambda c: post_return(c)[1]),
+                 ('no-earlier-separator-match-in-result', lambda c: post_return(c)[2]),
                  ('buffer-length-accounting', lambda c: accounted(c)),
                  ('no-empty-chunk-left', lambda c: R.ok(buf(c))),
                  ('flow-control-invariant', lambda c: flow_inv(c))],
